@@ -10,7 +10,7 @@
 (* character, "U3"/"U4" = 3/4-byte non-identifier characters, "T" = tab).  *)
 (* Pure operators only: the MC_* / Trace_* modules add the state.          *)
 (***************************************************************************)
-EXTENDS Naturals, Sequences, FiniteSets, TLC
+EXTENDS Naturals, Sequences, FiniteSets, TLC, FmtCounterStep
 
 Digits      == {"0", "1", "2", "9"}
 TypeLetters == {"o", "x", "X", "p", "b", "e", "E"}
@@ -281,6 +281,24 @@ EscapesOnlyR(s, sr) == (\A i \in 1..Len(s) : s[i] \notin {"{", "}"}) => sr.ok /\
 CounterLawR(sr) == LET phs == sr.phs IN
     CtrEnd(phs, 1, 0) = Cardinality({j \in 1..Len(phs) : phs[j].arg.k = "none"})
                         + Cardinality({j \in 1..Len(phs) : phs[j].spec.star})
+
+\* The unbounded machine of FmtCounter.tla (Apalache / TLAPS), folded over the placeholders of this literal: it hands out what
+\* Resolve hands out - on the format_args! side and on the side of parse_fmt_string - and ends at CtrEnd.
+RECURSIVE RunCounter(_, _, _)
+RunCounter(phs, j, st) ==
+    IF j > Len(phs) THEN <<>>
+    ELSE LET t == FStep(st, phs[j].arg.k = "none", phs[j].spec.star,
+                        IF phs[j].arg.k = "int" THEN Val(phs[j].arg.txt) ELSE 0, TRUE)
+         IN <<t>> \o RunCounter(phs, j + 1, t)
+MachineLawR(sr) == LET phs == sr.phs
+                       run == RunCounter(phs, 1, FInit)
+                       doc == Resolve(phs, 1, 0, TRUE)
+                       dm  == Resolve(phs, 1, 0, DmStarAdvances)
+                   IN /\ \A j \in 1..Len(phs) :
+                            /\ (phs[j].arg.k \in {"none", "int"} => doc[j].ref.n = run[j].docArg)
+                            /\ (phs[j].spec.star => doc[j].precFrom = run[j].docPrec)
+                            /\ (DmStarAdvances /\ phs[j].arg.k \in {"none", "int"} => dm[j].ref.n = run[j].implArg)
+                      /\ (Len(phs) > 0 => CtrEnd(phs, 1, 0) = run[Len(phs)].next)
 
 (***************************************************************************)
 (* C18 on the character automaton: every slice bound the parser uses is a  *)
